@@ -327,6 +327,9 @@ class Exec:
             if p == "self" and self.cls:
                 st.locals[p] = c.make_self(self, st, facts)
                 continue
+            if p in (getattr(self, "concrete_inputs", None) or {}):
+                st.locals[p] = self.concrete_inputs[p]      # CPython cross-check: run on a concrete input
+                continue
             ty = c.arg_types.get(p)
             if ty is None:
                 raise EngineError("contract of %s gives no type for parameter %r" % (self.fnname, p))
@@ -396,6 +399,12 @@ class Exec:
             self.check_exit(s)
             self.canaries.append(Obl("%s:canary-exit#%d" % (self.fnname, len(self.canaries)), list(s.pc), z3.BoolVal(False), "canary", 0, self.fnname))
         return self.obls
+
+    def entry_infeasible(self):
+        s = z3.Solver()
+        s.set("timeout", 3000)
+        s.add(*self.pre_state.pc)
+        return s.check() == z3.unsat
 
     def check_exit(self, s):
         c = self.contract
@@ -742,7 +751,9 @@ class Exec:
         it = self.eval(node.iter, st)
         seq = self.as_seq(it, st, node.iter)
         spec = self.contract.loops.get(ordinal)
-        if spec is None and seq.concrete_len() and seq.n <= UNROLL_LIMIT:
+        if getattr(self, "unroll_concrete", False) and seq.concrete_len() and seq.n <= 64:
+            spec = None                                     # cross-check mode: execute the loop, do not summarise it
+        if spec is None and seq.concrete_len() and seq.n <= (64 if getattr(self, "unroll_concrete", False) else UNROLL_LIMIT):
             states = [st]
             done = []
             saved_ord = self.loop_ordinal
@@ -751,6 +762,7 @@ class Exec:
                 nxt = []
                 for s in states:
                     self.assign(node.target, seq.at(k), s)
+                    s.locals["__it%d__" % ordinal] = k
                     for r in self.exec_block(node.body, [s]):
                         if r.status == "continue":
                             r.status = "run"
@@ -844,8 +856,13 @@ class Exec:
                 if isinstance(cur, (Closure, Builtin, RepoFunction, ModuleRef)):
                     continue
                 facts = []
-                if name in spec.get("types", {}):
-                    s.locals[name] = fresh(parse_type(spec["types"][name]), name, (), facts)
+                declared = spec.get("types", {}).get(name)
+                if declared is None and isinstance(cur, Seq) and cur.concrete_len() and cur.n == 0:
+                    # an empty list has no element type of its own: use the one another loop of the contract declares
+                    for other in self.contract.loops.values():
+                        declared = declared or other.get("types", {}).get(name)
+                if declared is not None:
+                    s.locals[name] = fresh(parse_type(declared), name, (), facts)
                 elif isinstance(cur, Seq) and how == "elem":
                     s.locals[name] = fresh_seq(cur.ety(), name, (), facts, cur.kind, n=cur.n)
                 else:
@@ -1079,6 +1096,8 @@ class Exec:
         raise EngineError("%s:L%d: unsupported subscript store on %r" % (self.fnname, target.lineno, base))
 
     def oblige_forall_index(self, st, idx, n, node):
+        if idx.concrete_len() and idx.n == 0:
+            return
         j = bvar("j")
         h = st.fork()
         h.assume(j >= 0, self.cmp_lt(j, idx.n))
